@@ -172,6 +172,9 @@ class Group:
         if not ok_real:
             return self._rec(desc, "inconclusive", time=round(res.time, 3),
                              detail=f"sat, but the encoding does not match the real run at the model ({detail_real}): encoder problem")
+        if getattr(self, "_last_validated", 0) == 0:
+            return self._rec(desc, "inconclusive", time=round(res.time, 3),
+                             detail="sat, but no trace of this group could be re-run on the real code at the model (key-typed inputs): not reported as a violation")
         if num_ok:
             env2, detail2 = self._numeric_search(goal, assum, pairs, env, tol)
             if env2 is None:
@@ -232,9 +235,11 @@ class Group:
                         d = 0.0 if bool(x) == bool(y) else 1.0
                     else:
                         x, y = float(x), float(y)
-                        if math.isnan(x) or math.isnan(y):
+                        if math.isnan(x) and math.isnan(y):
                             continue
-                        if math.isinf(x) or math.isinf(y):
+                        if math.isnan(x) or math.isnan(y):
+                            d = 1.0       # NaN on one side only
+                        elif math.isinf(x) or math.isinf(y):
                             d = 0.0 if x == y else 1.0
                         else:
                             d = abs(x - y) / max(1.0, abs(x), abs(y))
@@ -271,7 +276,9 @@ class Group:
         and compare with the numeric value of the encoding under the same assignment"""
         from . import concrete, symjax as sj
         import jax.numpy as jnp
+        import z3
         worst = 0.0
+        self._last_validated = 0
         for T in self.traces:
             if getattr(T, "no_validate", False):
                 continue
@@ -280,7 +287,15 @@ class Group:
             for sym, v in zip(T.flat_in, T.closed.jaxpr.invars):
                 a = np.empty(sym.shape, dtype=object)
                 for idx in np.ndindex(sym.shape):
-                    nm = str(sym[idx])
+                    el = sym[idx]
+                    if isinstance(el, sj.LogV) or not (z3.is_const(el) and el.decl().kind() == z3.Z3_OP_UNINTERPRETED):
+                        # log-domain / derived input: give its free variables values, then evaluate
+                        for nm2, var in sj.free_vars([sj.unlog(el) if not isinstance(el, sj.LogV) else el.P]).items():
+                            if nm2 not in e:
+                                e[nm2] = float(np.float32((rng or np.random.default_rng(0)).uniform(0.25, 0.75))) if var.sort() == sj.RealS else _default_val("i" if z3.is_int(var) else "b", rng)
+                        a[idx] = concrete.numeval(el, e)
+                        continue
+                    nm = str(el)
                     if nm not in e:
                         e[nm] = _default_val(sj.kind_of(v.aval.dtype), rng)
                     a[idx] = e[nm]
@@ -314,6 +329,7 @@ class Group:
                         d = abs(x - y) / max(1.0, abs(x), abs(y))
                     worst = max(worst, d)
             self.validated += 1
+            self._last_validated += 1
         return worst < 2e-3, f"max rel diff encoding vs real primitives {worst:.2g}"
 
     def finish_validation(self):
@@ -496,7 +512,7 @@ def summarize(prop, tier, seed, results, level, bounds, assumptions, functions, 
         lines.append(f"  obligation: {r['id']}\n  detail: {r.get('detail', '')[:400]}")
     for gid, e in errors:
         lines.append(f"HARNESS-ERROR group={gid}: {e[:600]}")
-    for r in inconc[:10]:
+    for r in inconc[:40]:
         lines.append(f"INCONCLUSIVE {r['id']}: {r.get('detail', '')[:300]}")
     for r in proved[:3]:
         samples.append({"obligation": r["id"], "verdict": "unsat (holds within bounds)", "solver_time_s": r.get("time", 0)})
@@ -531,9 +547,10 @@ def summarize(prop, tier, seed, results, level, bounds, assumptions, functions, 
         "wall_s": round(wall, 2),
         "violations": len(new_viol),
     }
-    os.makedirs(os.path.join(ROOT, "evidence"), exist_ok=True)
-    with open(os.path.join(ROOT, "evidence", f"{prop}.json"), "w") as f:
-        json.dump(ev, f, indent=1, default=str)
+    if not os.environ.get("VERIF_NO_EVIDENCE"):
+        os.makedirs(os.path.join(ROOT, "evidence"), exist_ok=True)
+        with open(os.path.join(ROOT, "evidence", f"{prop}.json"), "w") as f:
+            json.dump(ev, f, indent=1, default=str)
     for l in lines:
         print(l)
     print(f"[{prop}] tier={tier} groups={len(results)} obligations={len(recs)} proved={len(proved)} "
